@@ -3,7 +3,7 @@
 
    The definitions are shared, through a record of operations [Fld], by
      - [RFld] : Coq's real numbers (subject of the analytic theorems), and
-     - [QFld] : an executable twin over [Q] (exact + - * /, Qred-normalised; 1/sqrt to ~2^-128),
+     - [QFld] : an executable twin over [Q] (exact + - * /, Qred-normalised; 1/sqrt rounded down to a multiple of 2^-128),
                 evaluated with vm_compute by the correspondence check.
    The combinatorial theorems (sort / unique / mask) are proved once for every [Fld] whose
    [fleb] is a total preorder, hence for both instances.
@@ -257,12 +257,11 @@ Definition mu_of (c : R) (dl : R) : R := (5 * log10 dl + c)%R.
 (* ------------------------------------------------------------------ the executable instance *)
 Definition Qleb (x y : Q) : bool := Qle_bool x y.
 Definition sqrt_prec : positive := 128.
-(* floor(sqrt(q) * 2^128) / 2^128 for q >= 0 *)
-Definition Qsqrt_lo (q : Q) : Q :=
-  let n := Qnum q in
-  let d := Qden q in
-  Qred (Z.sqrt (n * Zpos d * 4 ^ (Zpos sqrt_prec)) # (d * 2 ^ sqrt_prec)).
-Definition Qinvsqrt (q : Q) : Q := Qred (/ Qsqrt_lo q).
+(* floor(2^128 / sqrt(q)) / 2^128 for q > 0: a dyadic rational within 2^-128 of 1/sqrt(q)
+   (floor(sqrt(t)) = Z.sqrt(floor(t))).  For q <= 0 (numpy: inf or nan) the value is 0: outside the
+   modelled domain, H^2 is positive in every theorem and every correspondence case. *)
+Definition Qinvsqrt (q : Q) : Q :=
+  Qred (Z.sqrt ((Zpos (Qden q) * 4 ^ (Zpos sqrt_prec)) / Qnum q) # (2 ^ sqrt_prec)).
 Definition QFld : Fld :=
   mkFld Q 0%Q 1%Q (fun x y => Qred (x + y)) (fun x y => Qred (x - y)) (fun x y => Qred (x * y))
         (fun x y => Qred (x / y)) (fun z => inject_Z z) Qleb Qceiling Qinvsqrt.
